@@ -60,21 +60,6 @@ def cell_tables():
     return lines
 
 
-def render():
-    common.load_repo()
-    body = []
-    for fn in SECTIONS:
-        body.append('-- ' + fn.__name__)
-        body += fn()
-    return ('-- GENERATED by /verif/harness/extract.py from the /repo working tree -- do not edit.\n'
-            'namespace HotXL.Generated\n' + '\n'.join(body) + '\nend HotXL.Generated\n')
-
-
-def write_tables():
-    return common.write_if_changed(common.TABLES, render())
-
-
-
 @section
 def lexer_tables():
     """rule order and regex text of ply's master regular expression, from the BUILT lexer"""
@@ -283,5 +268,35 @@ def registry_tables():
     return lines
 
 
+
+FILES = {'cell_tables': 'Cell', 'lexer_tables': 'Lexer', 'grammar_tables': 'Grammar',
+         'operator_tables': 'Operators', 'registry_tables': 'Registry'}
+
+
+def render_all():
+    """{module name: file content}; one file per area so that a changed table only
+    invalidates the proofs that depend on that area"""
+    common.load_repo()
+    out = {}
+    for fn in SECTIONS:
+        name = FILES.get(fn.__name__, fn.__name__.title().replace('_', ''))
+        body = fn()
+        out[name] = ('-- GENERATED by /verif/harness/extract.py (%s) from the /repo working tree -- do not edit.\n'
+                     'namespace HotXL.Generated\n' % fn.__name__ + '\n'.join(body) + '\nend HotXL.Generated\n')
+    out['Tables'] = ('-- GENERATED: all generated tables\n' +
+                     ''.join('import HotXL.Generated.%s\n' % n for n in sorted(out)))
+    return out
+
+
+def write_tables():
+    changed = []
+    base = os.path.dirname(common.TABLES)
+    for name, content in render_all().items():
+        if common.write_if_changed(os.path.join(base, name + '.lean'), content):
+            changed.append(name)
+    return changed
+
+
 if __name__ == '__main__':
-    print('tables %s' % ('rewritten' if write_tables() else 'unchanged'))
+    ch = write_tables()
+    print('tables %s' % (('rewritten: ' + ', '.join(ch)) if ch else 'unchanged'))
